@@ -170,6 +170,16 @@ where
         let ska_file = BufReader::new(File::open(filename)?);
         let decompress_reader = snap::read::FrameDecoder::new(ska_file);
         let ska_obj: Self = ciborium::de::from_reader(decompress_reader)?;
+        // A 128-bit file whose split k-mers happen to fit in 64 bits also decodes
+        // as 64-bit, so check the width the file was written with
+        if ska_obj.k_bits != IntT::n_bits() {
+            return Err(format!(
+                "File uses {}-bit split k-mers, cannot be read as {}-bit",
+                ska_obj.k_bits,
+                IntT::n_bits()
+            )
+            .into());
+        }
         Ok(ska_obj)
     }
 
